@@ -75,7 +75,11 @@ func (p *producer) cryptoTx(o Op) (*transaction.Transaction, string) {
 		p.finishTx(tx, []neotest.Signer{signer})
 		return tx
 	}
-	switch o.X % 3 {
+	sel := o.X % 2
+	if !dk.funded || bc.GetUtilityTokenBalance(dk.msigH, util.Uint160{}).Sign() <= 0 {
+		sel = 2 // the 1-of-2 account needs funds first
+	}
+	switch sel {
 	case 0:
 		// the bytes as a secp256k1 key: a valid signature must verify (ASSERT: the transaction HALTs or FAULTs with it)
 		msg := []byte(fmt.Sprintf("verif message %d", o.N))
@@ -84,13 +88,10 @@ func (p *producer) cryptoTx(o Op) (*transaction.Transaction, string) {
 		emit.AppCall(w.BinWriter, nativehashes.CryptoLib, "verifyWithECDsa", 0x0f, msg, dk.pub, sig, int64(native.Secp256k1Sha256))
 		emit.Opcodes(w.BinWriter, opcode.ASSERT)
 		return mk(w.Bytes(), a), "CryptoLib.verifyWithECDsa(secp256k1) of the two-curve key bytes"
-	case 1:
+	case 2:
 		dk.funded = true
 		return mk(callScript(nativehashes.GasToken, "transfer", a.ScriptHash(), dk.msigH, int64(3_0000_0000), nil), a), "fund the 1-of-2 account holding the two-curve key bytes"
 	default:
-		if !dk.funded || bc.GetUtilityTokenBalance(dk.msigH, util.Uint160{}).Sign() <= 0 {
-			return nil, "two-curve multisig account not funded"
-		}
 		// a transaction of the 1-of-2 account, signed by account 0: the witness check decodes both keys as secp256r1
 		tx := transaction.New(callScript(nativehashes.GasToken, "transfer", dk.msigH, p.kr.acctHash(o.B), int64(1000), nil), 2000_0000)
 		p.nonce++
